@@ -80,6 +80,11 @@ def creds : Op → Status → Option (List Cred)
   | .addNetAssetValues, _ => some [.governance, .anyRight]
   | _, _ => none
 
+/-- marker.go:866: "the caller account address possess 100% of the total supply of a marker" —
+of the coins that exist, and there have to be some. -/
+def holdsWholeSupply (callerBal circulating : Int) : Bool :=
+  decide (0 < circulating) && circulating == callerBal
+
 /-- operations that exist for restricted markers only -/
 def restrictedOnly : Op → Bool
   | .updateRequiredAttributes | .updateSendDenyList | .updateForcedTransfer => true
